@@ -43,6 +43,46 @@ class FailsRuntime(AlwaysFails):
         raise RuntimeError('this candidate cannot be fitted either')
 
 
+class FailsType(AlwaysFails):
+    def fit(self, X):
+        raise TypeError('unsupported operand in this candidate')
+
+
+class FailsAttribute(AlwaysFails):
+    def fit(self, X):
+        raise AttributeError('this candidate lacks an attribute')
+
+
+class FailsArithmetic(AlwaysFails):
+    def fit(self, X):
+        raise ZeroDivisionError('division by zero inside the estimator')
+
+
+class FailsLinAlg(AlwaysFails):
+    def fit(self, X):
+        raise np.linalg.LinAlgError('singular matrix inside the estimator')
+
+
+def failing_distribution(k):
+    """Distributions that cannot be fitted, by the exception type their fit ends with; the last one is
+    built from the library's own parts (a selecting wrapper none of whose candidates can be fitted)."""
+    import copulas.univariate as cu
+    k = k % 7
+    if k == 0:
+        return AlwaysFails
+    if k == 1:
+        return FailsRuntime()
+    if k == 2:
+        return FailsType
+    if k == 3:
+        return FailsAttribute()
+    if k == 4:
+        return FailsArithmetic
+    if k == 5:
+        return FailsLinAlg()
+    return cu.Univariate(candidates=[AlwaysFails, FailsType])
+
+
 def expected_candidates(parametric, bounded):
     return sorted(n for n, (p, b) in TAGS.items()
                   if (parametric is None or p == parametric) and (bounded is None or b == bounded))
@@ -270,11 +310,8 @@ def _table(spec, ctx):
         dist = {}
         for i, c in enumerate(cols):
             r = i % 3 if i < 3 else int(rng.integers(4))
-            if r == 0:
-                dist[c] = AlwaysFails
-                expect[c] = 'FALLBACK'
-            elif r == 1:
-                dist[c] = FailsRuntime()
+            if r in (0, 1):
+                dist[c] = failing_distribution(int(rng.integers(7)))
                 expect[c] = 'FALLBACK'
             elif r == 2:
                 dist[c] = cu.GaussianUnivariate
